@@ -354,9 +354,9 @@ func (o Obj) Sx() *Sx {
 		r := o.Route
 		alt := Ls(At("alt"))
 		for _, a := range r.Alt {
-			alt.Add(Ls(At(a[0]), At(a[1])))
+			alt.Add(Ls(At(dash(a[0])), At(a[1])))
 		}
-		return Ls(At("route"), At(r.NS), At(r.Name), Ls(At("to"), At(r.ToKind), At(r.ToName)), alt, Ls(At("tport"), optInt(r.TPortNum), optStr(r.TPortName)))
+		return Ls(At("route"), At(r.NS), At(r.Name), Ls(At("to"), At(dash(r.ToKind)), At(r.ToName)), alt, Ls(At("tport"), optInt(r.TPortNum), optStr(r.TPortName)))
 	}
 	return At("bad-obj")
 }
@@ -558,10 +558,10 @@ func ParseWorld(s *Sx) (w *World, err error) {
 			}
 			w.Objs = append(w.Objs, Obj{Kind: "ing", Ing: i})
 		case "route":
-			r := &Route{NS: o.L[1].A, Name: o.L[2].A, ToKind: o.L[3].L[1].A, ToName: o.L[3].L[2].A,
+			r := &Route{NS: o.L[1].A, Name: o.L[2].A, ToKind: undash(o.L[3].L[1].A), ToName: o.L[3].L[2].A,
 				TPortNum: pOptInt(o.L[5].L[1]), TPortName: pOptStr(o.L[5].L[2])}
 			for _, a := range o.L[4].Args() {
-				r.Alt = append(r.Alt, [2]string{a.L[0].A, a.L[1].A})
+				r.Alt = append(r.Alt, [2]string{undash(a.L[0].A), a.L[1].A})
 			}
 			w.Objs = append(w.Objs, Obj{Kind: "route", Route: r})
 		default:
